@@ -24,7 +24,7 @@ RULE = (
     "by the document."
 )
 ASSUMPTIONS = [
-    "not generated: !important, percentage stroke widths, several classes on one element, a color property below an ancestor that "
+    "not generated: !important, percentage stroke widths, a color property below an ancestor that "
     "hands down a fill/stroke of currentColor or on elements instantiated through use (CSS 3 and 4 disagree on inherited currentColor), <style> after the elements it selects (the parser is "
     "a single streaming pass), vector-effect together with caller/svg transforms or nested svg (which transform is 'the "
     "viewport transform' is then disputed)",
@@ -71,6 +71,14 @@ def decode(d):
         # cannot select the outermost svg itself (no class, type or id rules for it; '*' reaches its descendants directly)
         if d.chance(4, 8) and not is_root:
             n["cls"] = d.choice(CLASSES)
+            if d.chance(1, 4):
+                # a class list: two or three classes in a generated order
+                k = d.int(2, 3)
+                rot = d.below(len(CLASSES))
+                order = (CLASSES[rot:] + CLASSES[:rot])[:k]
+                if d.bool():
+                    order.reverse()
+                n["cls"] = " ".join(order)
         n["style"] = {}
         props = ["fill", "stroke", "stroke-width", "fill-opacity", "stroke-opacity"]
         for prop in props:
@@ -87,7 +95,8 @@ def decode(d):
                 else:
                     if src in (".class", "type.class") and not n["cls"]:
                         n["cls"] = d.choice(CLASSES)
-                    sel = {"*": "*", "type": n["tag"], ".class": "." + str(n["cls"]), "type.class": "%s.%s" % (n["tag"], n["cls"]), "#id": "#" + n["id"]}[src]
+                    one = d.choice(str(n["cls"]).split()) if n["cls"] else None  # a rule names one class of the list
+                    sel = {"*": "*", "type": n["tag"], ".class": "." + str(one), "type.class": "%s.%s" % (n["tag"], one), "#id": "#" + n["id"]}[src]
                     rules.append({"sel": [sel], "decl": {prop: val}})
         if n["tag"] in docgen.SHAPES and plain and d.chance(1, 6):
             n["attrs"]["vector-effect"] = "non-scaling-stroke"
@@ -224,6 +233,27 @@ def analyse(doc, want, o):
 
 
 def check(case):
+    """the CSS cascade first; a mismatch on a document with class lists is re-judged with the order in which the
+    library applies the rules of a class list - if that explains it, it is the known finding"""
+    out = check_model(case)
+    if out.status != "violation":
+        return out
+    if not any(len((n.get("cls") or "").split()) > 1 for n, _ in docgen.walk(case["root"])):
+        return out
+    docref.CLASS_LIST_ORDER[0] = True
+    try:
+        alt = check_model(case)
+    finally:
+        docref.CLASS_LIST_ORDER[0] = False
+    if alt.status == "ok":
+        o = core.Obs()
+        o.label(*out.labels)
+        o.label("class-list:order-dependent")
+        return o.known("KF-CLASS-LIST-ORDER", out.detail)
+    return out
+
+
+def check_model(case):
     se = lib.L()
     o = core.Obs()
     doc = case
